@@ -261,9 +261,7 @@ BUILTIN_ABBR = {
     'unsigned long long': 'ull',
 }
 STD_TYPEDEFS = {'size_t': 'unsigned long', 'std::size_t': 'unsigned long', 'ptrdiff_t': 'long', 'std::ptrdiff_t': 'long',
-                'uint64_t': 'unsigned long', 'int64_t': 'long', 'std::string': 'std::basic_string<char>',
-                'string': 'std::basic_string<char>', 'std::__cxx11::string': 'std::basic_string<char>',
-                'std::__cxx11::basic_string': 'std::basic_string', 'std::map::size_type': 'unsigned long',
+                'uint64_t': 'unsigned long', 'int64_t': 'long', 'std::map::size_type': 'unsigned long',
                 'std::vector::size_type': 'unsigned long', 'size_type': 'unsigned long',
                 'std::string::size_type': 'unsigned long'}
 
@@ -371,12 +369,15 @@ class Emitter:
         self.dropped = set()
         self.typeorder = []             # ('record', q) | ('inst', cname) in dependency order
         self.typeorder_seen = set()
+        self.string_tokens = {}
 
     # ---------------------------------------------------------------- types
     def resolve_name(self, name, scope=()):
         """resolve a (possibly unqualified) type name to a canonical known name"""
         if name in BUILTIN_C:
             return name
+        if name in ('initializer_list', 'vector', 'map', 'set', 'pair', 'unordered_map', 'unordered_set', 'queue'):
+            return 'std::' + name
         if name in STD_TYPEDEFS:
             return STD_TYPEDEFS[name]
         cands = [name]
@@ -401,6 +402,12 @@ class Emitter:
         if ty.kind == 'func':
             return Ty('func', inner=self.canon(ty.inner, scope), params=[self.canon(x, scope) for x in ty.params])
         name = self.resolve_name(ty.name, scope)
+        if name.split('::')[-1] == 'basic_string' or name in ('std::string', 'string'):
+            return Ty('name', 'std::string', [], ty.const)
+        if name in ('std::vector', 'std::set', 'std::unordered_set', 'std::queue', 'std::list', 'std::deque') and len(ty.args) > 1:
+            ty = Ty('name', name, ty.args[:1], ty.const)
+        if name in ('std::map', 'std::unordered_map') and len(ty.args) > 2:
+            ty = Ty('name', name, ty.args[:2], ty.const)
         if name in self.p.typedef and not ty.args:
             td = self.p.typedef[name]
             s = td.get('desugaredQualType') or td.get('qualType')
@@ -597,16 +604,37 @@ class Emitter:
             brk('%s: virtual call to %s needs a contract stub or a devirtualize entry' % (fe.f.get('name'), cname))
         return fe.call_function(m, ftu, f, args, self_arg)
 
+    def global_deps(self, node, tu):
+        """qualified names of globals referenced by an initialiser expression"""
+        out = []
+        stack = [node]
+        while stack:
+            x = stack.pop()
+            if x.get('kind') == 'DeclRefExpr' and x.get('referencedDecl', {}).get('kind') == 'VarDecl':
+                d = tu.by_id.get(x['referencedDecl']['id'])
+                if d is not None and '_scope' in d:
+                    q = tu.qual[d['id']]
+                    if d.get('parentDeclContextId') in tu.qual:
+                        q = tu.qual[d['parentDeclContextId']] + '::' + d['name']
+                    out.append(q)
+            stack.extend(x.get('inner', []))
+        return out
+
     def output(self):
         """assemble the C translation unit (without contracts: those are spliced by the caller through opts)"""
         out = []
         for kind, name, text in self.typeorder:
             out.append(text)
         out.append('')
-        # globals
+        # globals, initialised in dependency order (an initialiser may use other globals)
         ginit = []
         gdecls = []
-        for q in self.globals_needed:
+        done = set()
+
+        def emit_global(q):
+            if q in done:
+                return
+            done.add(q)
             if q not in self.p.globals:
                 brk('global %s has no definition in the loaded translation units' % q)
             tu, g, has_init = self.p.globals[q]
@@ -617,9 +645,18 @@ class Emitter:
                 fe = FuncEmitter(self, tu, {'kind': 'FunctionDecl', 'name': '__init_' + cn, 'type': {'qualType': 'void ()'}, 'id': '0', '_scope': g.get('_scope', [])})
                 fe.blocks.append([])
                 init = [c for c in g.get('inner', []) if not c.get('kind', '').endswith('Attr')][0]
+                before = len(self.globals_needed)
                 e = fe.expr(init)
                 temps = fe.blocks.pop()
+                for dep in list(self.globals_needed[before:]):
+                    emit_global(dep)
+                for dep in self.global_deps(init, tu):
+                    emit_global(dep)
                 ginit.append('{ %s %s = %s; }' % (' '.join(temps), cn, e))
+        i = 0
+        while i < len(self.globals_needed):
+            emit_global(self.globals_needed[i])
+            i += 1
         # run the queue again: global initialisers may have requested constructors
         self.run()
         protos = []
@@ -1119,9 +1156,15 @@ class FuncEmitter:
         s = 'switch (%s) %s' % (c, self.block(body))
         return ['{\n' + ''.join(indent(x) for x in pre + [s]) + '}'] if pre else [s]
 
+    def s_AttributedStmt(self, n):
+        return self.stmt_list([c for c in n.get('inner', []) if not c.get('kind', '').endswith('Attr')])
+
     def s_CaseStmt(self, n):
         inner = n['inner']
-        v = self.expr(inner[0])
+        if inner[0].get('kind') == 'ConstantExpr' and 'value' in inner[0]:
+            v = '%s /* %s */' % (inner[0]['value'], self.expr(inner[0]).replace('*/', ''))
+        else:
+            v = self.expr(inner[0])
         return ['case %s: ;' % v] + self.stmt_list(inner[1:])
 
     def s_DefaultStmt(self, n):
@@ -1228,6 +1271,9 @@ class FuncEmitter:
         path = [p['name'] for p in n.get('path', [])]
         e = self.expr(sub)
         st = self.ty(sub)
+        sm = self.em.models.lookup(self.em, st.strip_ref())
+        if sm is not None and sm.is_iter:
+            return e      # iterator base-class conversions are identities on the pointer model
         is_ptr = st.kind == 'ptr'
         for b in path:
             bq = self.em.resolve_name(b, self.scope)
@@ -1464,6 +1510,8 @@ class FuncEmitter:
                 fty = em.ty_of(f['type'], f.get('_scope', []))
                 if [repr(x) for x in fty.params] == [repr(x) for x in cty.params]:
                     cands.append((m, ftu, f))
+                elif not cty.params and not args and fty.params and self.all_defaulted(ftu, f):
+                    cands.append((m, ftu, f))
             if not cands:
                 if not cty.params:
                     # implicit default constructor: default-construct every field
@@ -1475,10 +1523,15 @@ class FuncEmitter:
             return self.call_function(m, ftu, f, args, None)
         m = em.models.lookup(em, t)
         if m is not None:
+            args = [a for a in args if a.get('kind') != 'CXXDefaultArgExpr']
             return m.construct(self, cty, args, node)
         if t.name in BUILTIN_C:
             return self.expr(args[0]) if args else '0'
         brk('%s: construct of unmapped type %r' % (self.f.get('name'), t))
+
+    def all_defaulted(self, ftu, f):
+        pn = [c for c in f.get('inner', []) if c.get('kind') == 'ParmVarDecl']
+        return all(any(not x.get('kind', '').endswith('Attr') for x in p.get('inner', [])) for p in pn)
 
     def ctor_owner(self, tu, f):
         pc = f.get('parentDeclContextId')
@@ -1587,6 +1640,19 @@ class FuncEmitter:
     def call_function(self, m, ftu, f, args, self_arg):
         em = self.em
         cname = em.func_cname(ftu, f)
+        alias = em.opts.get('call_alias', {}).get((em.func_cname(self.tu, self.f) if self.f.get('mangledName') else None, cname))
+        if alias:
+            # this call site is bound to a separately named, body-less copy of the callee (used for recursive calls,
+            # which are verified against the callee's contract like any other call)
+            fty = em.ty_of(f['type'], f.get('_scope', []))
+            alist = ([self_arg] if self_arg is not None else []) + self.call_args(f, args, ftu)
+            if alias not in em.external_protos:
+                proto, rett, meta = em.proto_of(ftu, f)
+                em.external_protos[alias] = {'proto': proto.replace(cname + '(', alias + '(', 1), 'meta': meta, 'ret': rett}
+            if 'noexcept' not in f['type']['qualType']:
+                self._stmt_may_throw = True
+            call = '%s(%s)' % (alias, ', '.join(alist))
+            return deref(call) if fty.inner.is_ref() else call
         fty = em.ty_of(f['type'], f.get('_scope', []))
         alist = ([self_arg] if self_arg is not None else []) + self.call_args(f, args, ftu)
         has_body = m in em.p.defn
